@@ -30,6 +30,7 @@ const repo = "/repo"
 type status struct {
 	OrderedRanges []string `json:"ordered_ranges"`
 	SyncShim      []string `json:"sync_shim_files"`
+	AtomicShim    []string `json:"atomic_shim_files"`
 	Roots         []string `json:"package_roots"`
 	Pools         []string `json:"pools"`
 	Missing       []string `json:"missing"`
@@ -124,6 +125,35 @@ func verifKeys[T any](m map[string]T, site int) []string {
 			put(p, importRe.ReplaceAllString(string(src), `${1}sync "github.com/GuanceCloud/platypus/pkg/verifsync"`))
 		}
 		st.SyncShim = append(st.SyncShim, strings.TrimPrefix(p, repo+"/"))
+		return nil
+	})
+
+	// ---- 2b. sync/atomic shim: every atomic operation is a scheduling point too (a lock-free
+	// check-then-act — Load, then Store — is interleaved by the explorer like a lock would be)
+	put(filepath.Join(repo, "pkg/verifatomic/verifatomic.go"), atomicShimSource)
+	atomicRe := regexp.MustCompile(`(?m)^(\s*)(?:atomic\s+)?"sync/atomic"\s*$`)
+	_ = filepath.Walk(filepath.Join(repo, "pkg"), func(p string, info os.FileInfo, err error) error {
+		if err != nil || info.IsDir() || !strings.HasSuffix(p, ".go") || strings.HasSuffix(p, "_test.go") {
+			return nil
+		}
+		if strings.Contains(p, "/verifsync/") || strings.Contains(p, "/verifatomic/") {
+			return nil
+		}
+		path := p
+		if prev, ok := replace[p]; ok {
+			path = prev
+		}
+		src, err := os.ReadFile(path)
+		if err != nil || !atomicRe.Match(src) {
+			return nil
+		}
+		out := atomicRe.ReplaceAllString(string(src), `${1}atomic "github.com/GuanceCloud/platypus/pkg/verifatomic"`)
+		if path != p {
+			must(os.WriteFile(path, []byte(out), 0o644))
+		} else {
+			put(p, out)
+		}
+		st.AtomicShim = append(st.AtomicShim, strings.TrimPrefix(p, repo+"/"))
 		return nil
 	})
 
@@ -386,4 +416,101 @@ func (p *Pool) Drain() {
 	p.items = nil
 	p.mu.Unlock()
 }
+`
+
+// atomicShimSource is the pkg/verifatomic package: the API of sync/atomic with a scheduling point
+// in front of every operation.
+const atomicShimSource = `// Package verifatomic replaces "sync/atomic" in instrumented builds (never shipped).
+package verifatomic
+
+import (
+	"sync/atomic"
+	"unsafe"
+
+	vs "github.com/GuanceCloud/platypus/pkg/verifsync"
+)
+
+func pt() {
+	if vs.Hooks.Point != nil {
+		vs.Hooks.Point("atomic", nil)
+	}
+}
+
+func AddInt32(p *int32, d int32) int32       { pt(); return atomic.AddInt32(p, d) }
+func AddInt64(p *int64, d int64) int64       { pt(); return atomic.AddInt64(p, d) }
+func AddUint32(p *uint32, d uint32) uint32   { pt(); return atomic.AddUint32(p, d) }
+func AddUint64(p *uint64, d uint64) uint64   { pt(); return atomic.AddUint64(p, d) }
+func LoadInt32(p *int32) int32               { pt(); return atomic.LoadInt32(p) }
+func LoadInt64(p *int64) int64               { pt(); return atomic.LoadInt64(p) }
+func LoadUint32(p *uint32) uint32            { pt(); return atomic.LoadUint32(p) }
+func LoadUint64(p *uint64) uint64            { pt(); return atomic.LoadUint64(p) }
+func LoadPointer(p *unsafe.Pointer) unsafe.Pointer { pt(); return atomic.LoadPointer(p) }
+func StoreInt32(p *int32, v int32)           { pt(); atomic.StoreInt32(p, v) }
+func StoreInt64(p *int64, v int64)           { pt(); atomic.StoreInt64(p, v) }
+func StoreUint32(p *uint32, v uint32)        { pt(); atomic.StoreUint32(p, v) }
+func StoreUint64(p *uint64, v uint64)        { pt(); atomic.StoreUint64(p, v) }
+func StorePointer(p *unsafe.Pointer, v unsafe.Pointer) { pt(); atomic.StorePointer(p, v) }
+func SwapInt32(p *int32, v int32) int32      { pt(); return atomic.SwapInt32(p, v) }
+func SwapInt64(p *int64, v int64) int64      { pt(); return atomic.SwapInt64(p, v) }
+func SwapUint32(p *uint32, v uint32) uint32  { pt(); return atomic.SwapUint32(p, v) }
+func SwapUint64(p *uint64, v uint64) uint64  { pt(); return atomic.SwapUint64(p, v) }
+func SwapPointer(p *unsafe.Pointer, v unsafe.Pointer) unsafe.Pointer { pt(); return atomic.SwapPointer(p, v) }
+func CompareAndSwapInt32(p *int32, o, n int32) bool    { pt(); return atomic.CompareAndSwapInt32(p, o, n) }
+func CompareAndSwapInt64(p *int64, o, n int64) bool    { pt(); return atomic.CompareAndSwapInt64(p, o, n) }
+func CompareAndSwapUint32(p *uint32, o, n uint32) bool { pt(); return atomic.CompareAndSwapUint32(p, o, n) }
+func CompareAndSwapUint64(p *uint64, o, n uint64) bool { pt(); return atomic.CompareAndSwapUint64(p, o, n) }
+func CompareAndSwapPointer(p *unsafe.Pointer, o, n unsafe.Pointer) bool { pt(); return atomic.CompareAndSwapPointer(p, o, n) }
+
+type Int32 struct{ v atomic.Int32 }
+
+func (x *Int32) Load() int32                      { pt(); return x.v.Load() }
+func (x *Int32) Store(v int32)                    { pt(); x.v.Store(v) }
+func (x *Int32) Add(d int32) int32                { pt(); return x.v.Add(d) }
+func (x *Int32) Swap(v int32) int32               { pt(); return x.v.Swap(v) }
+func (x *Int32) CompareAndSwap(o, n int32) bool   { pt(); return x.v.CompareAndSwap(o, n) }
+
+type Int64 struct{ v atomic.Int64 }
+
+func (x *Int64) Load() int64                      { pt(); return x.v.Load() }
+func (x *Int64) Store(v int64)                    { pt(); x.v.Store(v) }
+func (x *Int64) Add(d int64) int64                { pt(); return x.v.Add(d) }
+func (x *Int64) Swap(v int64) int64               { pt(); return x.v.Swap(v) }
+func (x *Int64) CompareAndSwap(o, n int64) bool   { pt(); return x.v.CompareAndSwap(o, n) }
+
+type Uint32 struct{ v atomic.Uint32 }
+
+func (x *Uint32) Load() uint32                    { pt(); return x.v.Load() }
+func (x *Uint32) Store(v uint32)                  { pt(); x.v.Store(v) }
+func (x *Uint32) Add(d uint32) uint32             { pt(); return x.v.Add(d) }
+func (x *Uint32) Swap(v uint32) uint32            { pt(); return x.v.Swap(v) }
+func (x *Uint32) CompareAndSwap(o, n uint32) bool { pt(); return x.v.CompareAndSwap(o, n) }
+
+type Uint64 struct{ v atomic.Uint64 }
+
+func (x *Uint64) Load() uint64                    { pt(); return x.v.Load() }
+func (x *Uint64) Store(v uint64)                  { pt(); x.v.Store(v) }
+func (x *Uint64) Add(d uint64) uint64             { pt(); return x.v.Add(d) }
+func (x *Uint64) Swap(v uint64) uint64            { pt(); return x.v.Swap(v) }
+func (x *Uint64) CompareAndSwap(o, n uint64) bool { pt(); return x.v.CompareAndSwap(o, n) }
+
+type Bool struct{ v atomic.Bool }
+
+func (x *Bool) Load() bool                    { pt(); return x.v.Load() }
+func (x *Bool) Store(v bool)                  { pt(); x.v.Store(v) }
+func (x *Bool) Swap(v bool) bool              { pt(); return x.v.Swap(v) }
+func (x *Bool) CompareAndSwap(o, n bool) bool { pt(); return x.v.CompareAndSwap(o, n) }
+
+type Value struct{ v atomic.Value }
+
+func (x *Value) Load() any                   { pt(); return x.v.Load() }
+func (x *Value) Store(v any)                 { pt(); x.v.Store(v) }
+func (x *Value) Swap(v any) any              { pt(); return x.v.Swap(v) }
+func (x *Value) CompareAndSwap(o, n any) bool { pt(); return x.v.CompareAndSwap(o, n) }
+
+type Pointer[T any] struct{ v atomic.Pointer[T] }
+
+func (x *Pointer[T]) Load() *T                    { pt(); return x.v.Load() }
+func (x *Pointer[T]) Store(v *T)                  { pt(); x.v.Store(v) }
+func (x *Pointer[T]) Swap(v *T) *T                { pt(); return x.v.Swap(v) }
+func (x *Pointer[T]) CompareAndSwap(o, n *T) bool { pt(); return x.v.CompareAndSwap(o, n) }
 `
